@@ -44,5 +44,18 @@ class Spec(pipeprops.PropSpec):
                "references to classes sharing a shape label are exempt (finding C01-F2)"
 
 
+def _profile_figures():
+    """profile_graph: the figures of the profile TEXT (Props/C01.v: C01_profile_json_figures, C01_profile_round_trip).
+    Every second case also runs Shaper.profile_graph on its (graph, configuration), string and file sink
+    alternating: the text is compared byte for byte with Model.RunProfile.run_profile_json and every figure in it
+    is recounted from the abstract triples by the independent oracle (vp.pipeprofile.check_profile_text)."""
+    from vp import pipeprofile
+    pipeprofile.attach(Spec, every=2, oracle_map=True)
+    Spec.theorems += ", C01_profile_json_figures, C01_profile_round_trip, C01_profile_text_figures"
+
+
+_profile_figures()
+
+
 def run(tier, seed, replay=None):
     return pipeprops.run_property(Spec(), tier, seed, replay)
